@@ -22,6 +22,12 @@ type gossipViewManager struct {
 	// This field holds that value until it is sent to the gossip strategy.
 	NilVotedRound *tmconsensus.VersionedRoundView
 
+	// Further nil-committed rounds that ended before NilVotedRound was sent,
+	// for instance when the gossip strategy is slow to read.
+	// An update carries one nil-voted round,
+	// so these are sent one per update, oldest first.
+	queuedNilVotedRounds []*tmconsensus.VersionedRoundView
+
 	Committing, Voting, NextRound OutgoingView
 
 	pendingRoundSessionChanges []tmelink.RoundSessionChange
@@ -42,6 +48,19 @@ func newGossipViewManager(out chan<- tmelink.NetworkViewUpdate) gossipViewManage
 
 		inGrace: make(map[hr]struct{}),
 	}
+}
+
+// AddNilVotedRound records a round that ended in a nil commit,
+// to be sent to the gossip strategy.
+// If an earlier nil-voted round has not been sent yet, that one is kept and sent first;
+// overwriting it would mean its precommits are never shared.
+func (m *gossipViewManager) AddNilVotedRound(v *tmconsensus.VersionedRoundView) {
+	if m.NilVotedRound == nil {
+		m.NilVotedRound = v
+		return
+	}
+
+	m.queuedNilVotedRounds = append(m.queuedNilVotedRounds, v)
 }
 
 func (m *gossipViewManager) Output() gossipStrategyOutput {
@@ -188,4 +207,9 @@ func (o gossipStrategyOutput) MarkSent() {
 
 	// Always clear the NilVotedRound; no version tracking involved there.
 	o.m.NilVotedRound = nil
+	if o.Val.NilVotedRound != nil && len(o.m.queuedNilVotedRounds) > 0 {
+		// Another nil-voted round is waiting; it goes out with the next update.
+		o.m.NilVotedRound = o.m.queuedNilVotedRounds[0]
+		o.m.queuedNilVotedRounds = o.m.queuedNilVotedRounds[1:]
+	}
 }
